@@ -1369,6 +1369,9 @@ impl DcpsDomainParticipant {
             .any(|x| subscription_handle.as_ref() == &x.key().value)
         {
             data_writer.remove_matched_subscription(&subscription_handle);
+            data_writer
+                .transport_writer
+                .delete_matched_reader(Guid::from(<[u8; 16]>::from(subscription_handle)));
 
             data_writer
                 .status_condition
@@ -1914,6 +1917,9 @@ impl DcpsDomainParticipant {
             .any(|x| &x.key().value == publication_handle.as_ref())
         {
             data_reader.remove_matched_publication(&publication_handle);
+            data_reader
+                .transport_reader
+                .delete_matched_writer(Guid::from(<[u8; 16]>::from(publication_handle)));
         }
     }
 
